@@ -1585,13 +1585,18 @@ impl<'l> CelCompiler<'l> {
         // now() and timestamp() fail while the guard is alive, so a call that
         // reads the clock (directly, in an argument or in a macro body) is not
         // a constant and is evaluated at every execution instead.
-        let _no_clock = crate::utils::clock::forbid_clock();
+        let no_clock = crate::utils::clock::forbid_clock();
         let r = i.run_raw(&bc, true);
 
         match r {
             // An error nested in the value comes from a name that is not bound
             // at compile time (e.g. `[x].filter(v, true)`): not a constant.
-            Ok(v) if !Self::contains_err(&v) => CompiledProg::new(NodeValue::ConstExpr(v), details),
+            // Nor is a value computed after the clock or an unbound name was
+            // refused (e.g. `int(match now() { case timestamp: 1, case _: 2 })`,
+            // `int(match [1].map(v, x)[0] { case int: 1, case _: 2 })`).
+            Ok(v) if !no_clock.runtime_input_requested() && !Self::contains_err(&v) => {
+                CompiledProg::new(NodeValue::ConstExpr(v), details)
+            }
             _ => CompiledProg::new(NodeValue::Bytecode(bc.into()), details),
         }
     }
